@@ -7,6 +7,10 @@ ADM/BSSNOK equation of Spec/ADM.lean term by term, that rho_n / fluxup3_n / Stre
 are the Eulerian projections, and (Layer B) that the right-hand sides of dtgammaup3,
 dtphi_bssnok, dtgammadown3_bssnok are the t-derivatives of gamma^-1, ln(det gamma)/12,
 psi^-4 gamma_ij under the product rule and the kinematic relation.
+Extensions (Props/C06b, C06c, C06d): Layer B derivations of dtAdown3_bssnok = d_t(psi^-4 (K_ij - gamma_ij K/3)) from the ADM
+evolution equation of K_ij, and of dts_Gamma_bssnok = d_t(-d_j gamma~^ij) (commuting derivatives + the momentum constraint in
+conformal form, itself derived from Momentumup3 = 0); Einstein's equations => Hamiltonian = 0 and Momentumup3 = 0 modulo the
+(uncontracted) Gauss and Codazzi equations, which stay hypotheses.
 
 Search part (independent of model and code): sympy-generated exact solutions —
 random smooth 3+1 fields (time-dependent lapse > 0, shift, non-diagonal metric) with
@@ -57,23 +61,23 @@ EXTRA = [
      ["AurelVerif.C06." + t for t in (
          "s_Gamma_bssnok_def", "Aup3_closed", "dtgammaup3_bssnok_is_dt", "D_of_dtgammaup3_bssnok",
          "dt_s_Gamma_bssnok_2823", "dts_Gamma_bssnok_is_dt", "dts_Gamma_bssnok_vacuum_is_dt", "s_Gamma_udd3_bssnok_rel",
-         "Aup3_traceless", "momentum_conformal", "momc_of_Momentum_zero")]
+         "Aup3_traceless", "s_Gamma_udd3_bssnok_trace_zero", "momentum_conformal", "momc_of_Momentum_zero")]
      + ["AurelVerif.C06Deriv." + t for t in (
          "Deriv.const_mul", "Deriv.two_thirds", "dt_conformal_inverse_metric", "dt_GammaVec_jets", "Gamma_contract_A",
-         "Gamma_trace", "mom_conformal")]),
+         "Gamma_trace", "mom_conformal", "christoffel_trace", "half_trace_logdet", "Gammat_trace_zero")]),
 ]
 NEEDED = ["Hamiltonian", "Momentumup3", "Momentumx", "Momentumy", "Momentumz", "dtKtrace", "dtphi_bssnok", "dtgammaup3",
           "dtgammadown3_bssnok", "dtAdown3_bssnok", "dts_Gamma_bssnok", "rho_n", "fluxup3_n", "Stressup3_n",
           "Stressdown3_n", "Stresstrace_n", "Lie_beta_scalar", "Lie_beta_s_uu", "Lie_beta_w_s_dd", "s_covd_uu", "trace3",
           "tracefree3", "gammaup3", "gammadet", "Ktrace", "Kup3", "Adown3", "gammaup4", "nup4",
-          "Aup3", "s_Gamma_bssnok", "s_Gamma_udd3_bssnok", "gup4", "gdown4", "ndown4", "betadown3", "betamag", "gtt"]
+          "Aup3", "s_Gamma_bssnok", "s_Gamma_udd3_bssnok", "s_Gamma_udd3", "gup4", "gdown4", "ndown4", "betadown3", "betamag", "gtt"]
 LEAN_FILES = ["AurelVerif/Props/C06.lean", "AurelVerif/Lemmas/C06Deriv.lean", "AurelVerif/Spec/ADM.lean",
               "AurelVerif/Spec/Covd.lean", "AurelVerif/Props/C09.lean", "AurelVerif/Props/C08.lean",
               "AurelVerif/Gen/CoreKeys.lean", "AurelVerif/Gen/CoreCurv.lean", "AurelVerif/Gen/CoreHelpers.lean",
               "AurelVerif/Props/C06b.lean", "AurelVerif/Props/C06c.lean", "AurelVerif/Props/C06d.lean",
               "AurelVerif/Lemmas/C06DtA.lean", "AurelVerif/Lemmas/C06Gauss.lean", "AurelVerif/Lemmas/C06Mom.lean",
               "AurelVerif/Lemmas/C06DtGamma.lean", "AurelVerif/Spec/GaussCodazzi.lean", "AurelVerif/Spec/Curvature.lean",
-              "AurelVerif/Lemmas/C04Gup.lean", "AurelVerif/Lemmas/C04Blocks.lean"]
+              "AurelVerif/Lemmas/C04Gup.lean", "AurelVerif/Lemmas/C04Blocks.lean", "AurelVerif/Lemmas/C05Covd.lean"]
 
 KAPPA = 8 * np.pi
 PRIMS = ["al", "b0", "b1", "b2", "g00", "g01", "g02", "g11", "g12", "g22"]
@@ -557,10 +561,19 @@ def run(ctx):
     ctx.trusted += corecheck.TRUSTED
     ctx.trusted += ["sympy differentiation + lambdify and numpy.linalg (search oracle only)"]
     ctx.assumptions += [
-        "NOT covered by any theorem (continuum theory, trusted): 'the constraints converge to zero on every exact solution' = contracted "
-        "Gauss-Codazzi identities + Einstein's equations; the derivation of the BSSNOK right-hand sides of dtAdown3_bssnok, "
-        "dts_Gamma_bssnok from the ADM equations (dtKtrace IS derived, with the ADM equation for K_ij and the Hamiltonian constraint as hypotheses); the convergence order of the composed finite-difference expressions. These are watched by "
-        "the sympy oracle on exact solutions at two resolutions (a test, labelled as such).",
+        "NOT covered by any theorem (differential geometry / analysis, trusted): that the Riemann tensor of the 4-metric satisfies the "
+        "GAUSS equation R4_ijkl = R3_ijkl + K_ik K_jl - K_il K_jk and the CODAZZI equation R4_ijks n^s = D_j K_ik - D_i K_jk and has the pair "
+        "antisymmetries (hypotheses of the theorems 'Einstein's equations => Hamiltonian = 0, Momentumup3 = 0' of Props/C06c; the contraction "
+        "with gamma^{mu nu} = g^{mu nu} + n^mu n^nu, i.e. the algebraic half, IS proven, as are the facts about the code's own n^mu, g_mu_nu, "
+        "g^mu_nu, gamma^mu_nu); that the 3-Ricci scalar the code computes is the double contraction of the same R3_ijkl; that R~_ij + R^phi_ij is "
+        "the Ricci tensor of gamma_ij; the ADM evolution equation of K_ij "
+        "itself (a hypothesis of the Layer-B theorems for dtKtrace and dtAdown3_bssnok); the convergence order of the composed "
+        "finite-difference expressions. These are watched by the sympy oracle on exact solutions at two resolutions (a test, labelled as such).",
+        "Layer B theorems for dtAdown3_bssnok (= d_t(psi^-4 (K_ij - gamma_ij K/3)), NO constraint used) and dts_Gamma_bssnok (= d_t(-d_j gamma~^ij)) "
+        "take as hypotheses: additivity + product rule for d_t and d_i, for dts_Gamma_bssnok also that d_t commutes with d_i and d_i with d_j, the "
+        "kinematic relation, the ADM evolution equation of K_ij (with Lambda), d(psi^-4) = -4 psi^-4 d(phi), gamma^ij the two-sided inverse, "
+        "D_c gamma^ab = 0, and for dts_Gamma_bssnok the momentum constraint (Momentumup3 = 0, brought to the conformal form Alcubierre 2.8.24 by a theorem). "
+        "The finite-difference operators satisfy the product rule and commute with d_t only up to truncation error: continuum statements.",
         "Layer B theorems (dtgammaup3, dtphi_bssnok, dtgammadown3_bssnok are d/dt of gamma^-1, ln(det gamma)/12, psi^-4 gamma_ij) take the "
         "product rule for d_t and d_i and the kinematic relation d_t gamma_ij = -2 alpha K_ij + L_beta gamma_ij as hypotheses; the logarithm and "
         "psi^-4 enter only through d(ln x) = dx/x and d(psi^-4) = -4 psi^-4 d(phi)",
@@ -601,9 +614,9 @@ def replay(ctx, obj):
 
 MANIFEST = {
     "category": "proof",
-    "technique": "Lean 4 theorems (ring / field_simp / matrix algebra over an arbitrary field) about formulas regenerated from core.py by "
-                 "symbolic execution, against a hand-written index-notation specification of the ADM constraints and BSSNOK evolution equations; "
-                 "translation validation each run; independent sympy exact-solution oracle at two resolutions as failing-input search",
+    "technique": "Lean 4 theorems (ring / field_simp / matrix algebra / finite-sum manipulation over an arbitrary field) about formulas regenerated "
+                 "from core.py by symbolic execution, against a hand-written index-notation specification of the ADM constraints and BSSNOK evolution "
+                 "equations; translation validation each run; independent sympy exact-solution oracle at two resolutions as failing-input search",
     "text": "Proof for every input, every field and every finite-difference operator, for both values of `vacuum`: Hamiltonian = R + K^2 - K_ij K^ij "
             "- 2 kappa rho - 2 Lambda; Momentumup3 = D_j(K^ij - gamma^ij K) - kappa S^i; dtKtrace, dtphi_bssnok, dtgammaup3, dtgammadown3_bssnok, "
             "dtAdown3_bssnok, dts_Gamma_bssnok equal the cited equations (Baumgarte-Shapiro 2.132, 2.133, 2.137, 11.35-11.38; Alcubierre "
@@ -611,14 +624,29 @@ MANIFEST = {
             "1/6, -2/3, +2/3, which terms the vacuum branches drop (dtKtrace's vacuum branch also drops Lambda); rho_n, fluxup3_n, Stress* are "
             "T n n, -gamma T n, gamma gamma T (S_ij = T_ij). Layer B (product rule for d_t, d_i and d_t gamma_ij = -2 alpha K_ij + L_beta gamma_ij as "
             "hypotheses): dtgammaup3 = d_t(gamma^-1), dtphi_bssnok = d_t(ln det gamma / 12) (Jacobi's formula as a field identity), "
-            "dtgammadown3_bssnok = d_t(psi^-4 gamma_ij); with the ADM evolution equation of K_ij and the Hamiltonian constraint as further "
-            "hypotheses: dtKtrace = d_t(gamma^ij K_ij), using A~_ij A~^ij = K_ij K^ij - K^2/3.",
-    "note": "PARTIAL scope, stated: no theorem covers 'the constraints converge to zero on every exact solution' (= contracted Gauss-Codazzi "
-            "identities + Einstein's equations, continuum theory), nor the derivation of the BSSNOK right-hand sides of dtAdown3_bssnok / "
-            "dts_Gamma_bssnok from ADM (only their term-by-term match with the cited equations), nor the ADM equations themselves, nor convergence orders; these are only TESTED by the sympy oracle (random smooth 4-metrics in a random gauge "
-            "with T := (G + Lambda g)/kappa, and a moving Kerr-Schild vacuum solution; constraints -> 0 and each dt-key -> exact d/dt at two "
-            "resolutions, fd_order 4 and 6). Trusted: Lean kernel + propext/Classical.choice/Quot.sound; the symbolic-execution translator (validated "
-            "each run); numpy semantics; exact arithmetic instead of IEEE-754; the book equations as transcribed in Spec/ADM.lean (equation numbers "
-            "from memory). The oracle found two genuine defects (sign of the lapse term of dtgammaup3; dtphi_bssnok multiplied the shift divergence "
-            "by phi), fixed in /repo 75ab97b and a03aaf1; their minimal witnesses are part of every run.",
+            "dtgammadown3_bssnok = d_t(psi^-4 gamma_ij); with the ADM evolution equation of K_ij as a further hypothesis: "
+            "dtAdown3_bssnok = d_t(psi^-4 (K_ij - gamma_ij K/3)) (both branches, no constraint needed), and with the Hamiltonian constraint "
+            "dtKtrace = d_t(gamma^ij K_ij), using A~_ij A~^ij = K_ij K^ij - K^2/3; with commuting derivatives and the momentum constraint: "
+            "d_t gamma~^ij = L_beta gamma~^ij + (2/3) gamma~^ij d_k beta^k + 2 alpha A~^ij and dts_Gamma_bssnok = d_t(Gamma~^i), Gamma~^i = -d_j gamma~^ij "
+            "(both branches), where the conformal form of the momentum constraint (Alcubierre 2.8.24) is derived from the code's Momentumup3 = 0 "
+            "(metric compatibility as hypothesis; Gamma~^j_jm = 0 derived from phi = ln det gamma / 12 by Jacobi's formula). Constraints: for any 4-index tensor R4 with the pair antisymmetries that satisfies "
+            "the Gauss and Codazzi equations, Hamiltonian = 2 (G + Lambda g - kappa T)_mu_nu n^mu n^nu and Momentumup3^i = -gamma^{i mu} (G + Lambda g - "
+            "kappa T)_mu_nu n^nu with G the Einstein tensor of R4, hence Einstein's equations => both constraints vanish (vacuum branches: G = 0); "
+            "the projector / unit-normal facts used (gamma^{mu nu} = g^{mu nu} + n^mu n^nu, n.n = -1, n_i = 0) are proven for the code's own gup4, "
+            "gdown4, nup4, gammaup4; D_j(K^ij - gamma^ij K) = gamma^ia gamma^jb (D_j K_ab - D_a K_jb) from D gamma^ab = 0 and the product rule.",
+    "note": "PARTIAL scope, stated: 'the constraints converge to zero on every exact solution' is proven only MODULO the Gauss and Codazzi "
+            "equations (hypotheses: that the 4-Riemann tensor of the metric satisfies them is not proven), modulo 's_RicciS is the double "
+            "contraction of the 3-Riemann tensor' and, for the momentum constraint, metric compatibility + product rule; the dt-keys are proven to be "
+            "the true t-derivatives only in the continuum sense (product rule, commuting derivatives: Layer B) with the kinematic relation, the ADM "
+            "evolution equation of K_ij, R_ij = R~_ij + R^phi_ij and (dtKtrace: Hamiltonian, dts_Gamma_bssnok: momentum) constraints "
+            "as hypotheses; no theorem covers the ADM equations themselves nor convergence orders; all of this is additionally TESTED by the sympy "
+            "oracle (random smooth 4-metrics in a random gauge with T := (G + Lambda g)/kappa, and a moving Kerr-Schild vacuum solution; constraints "
+            "-> 0 and each dt-key -> exact d/dt at two resolutions, fd_order 4 and 6). Non-vacuity: concrete rational instances next to each theorem "
+            "(FLRW point satisfying ALL of Einstein's equations with its Gauss-Codazzi 4-Riemann tensor; anisotropic Bianchi-I point for dtAdown3_bssnok; "
+            "conformally flat point with a gradient of phi for Alcubierre 2.8.24); the operator-form hypotheses (Deriv, commutation) are satisfiable "
+            "over Q only by the zero operator (static point shown), over a differential field by d/dt. Trusted: Lean kernel + "
+            "propext/Classical.choice/Quot.sound; the symbolic-execution translator (validated each run); numpy semantics; exact arithmetic instead of "
+            "IEEE-754; the book equations as transcribed in Spec/ADM.lean, Spec/GaussCodazzi.lean (equation numbers from memory). The oracle found two "
+            "genuine defects (sign of the lapse term of dtgammaup3; dtphi_bssnok multiplied the shift divergence by phi), fixed in /repo 75ab97b and "
+            "a03aaf1; their minimal witnesses are part of every run.",
 }
